@@ -401,7 +401,7 @@ class Exec(Engine):
             self._entry_vars = saved_entry
 
     def havoc(self, st, names):
-        for n in names:
+        for n in sorted(names):
             if n in st.vars:
                 v = st.vars[n]
                 try:
